@@ -273,6 +273,76 @@ def to_format_checks(chk: Check):
     chk.count("to_format_cases", n)
 
 
+def defaults_checks(chk: Check):
+    """constructors called WITHOUT `dimensions` and/or `format`: the inferred dimensions are (largest index + 1)
+    per mode (the smallest box holding every supplied coordinate; for from_lol the list lengths), whatever the
+    order in which coordinates arrive, and reading back returns the supplied entries."""
+    import itertools as it
+
+    from tensora import Tensor
+
+    rng = chk.rng
+    n = 600 if chk.tier == "quick" else 8000
+    bad = 0
+    for k in range(n):
+        order = rng.choice([1, 2, 2, 3, 3, 4])
+        m = rng.randint(1, 6)
+        coords = list({tuple(rng.randint(0, 4) for _ in range(order)) for _ in range(m)})
+        variant = k % 3
+        if variant == 0:
+            coords.sort()
+        elif variant == 1:
+            coords.sort(reverse=True)
+        else:
+            rng.shuffle(coords)
+        vals = [float(rng.choice([1, 2, 3, -1, -2])) for _ in coords]
+        want_dims = tuple(max(c[d] for c in coords) + 1 for d in range(order))
+        want = {c: v for c, v in zip(coords, vals)}
+        entry = ("dok", "aos", "soa")[k % 3]
+        fmt = None if k % 2 else _fmt_obj(tuple(rng.choice("ds") for _ in range(order)), tuple(rng.sample(range(order), order)))
+        case = {"entry": entry + "(no dimensions)", "coords": [list(c) for c in coords], "vals": vals, "format": None if fmt is None else fmt.deparse()}
+        try:
+            if entry == "dok":
+                t = Tensor.from_dok(dict(zip(coords, vals)), format=fmt)
+            elif entry == "aos":
+                t = Tensor.from_aos(coords, vals, format=fmt)
+            else:
+                t = Tensor.from_soa(tuple(zip(*coords)), vals, format=fmt)
+        except Exception as e:  # noqa: BLE001
+            bad += 1
+            chk.violation(f"constructor without dimensions rejected valid entries: {type(e).__name__}: {str(e)[:200]}", case)
+            continue
+        chk.case(("defaults", entry, tuple(coords), None if fmt is None else fmt.deparse()))
+        got = dict(kernels_raw_decode(t))
+        if tuple(t.dimensions) != want_dims:
+            bad += 1
+            chk.violation("dimensions inferred from the coordinates are not (largest index + 1) per mode", case, expected=list(want_dims), got=list(t.dimensions))
+        elif {c: v for c, v in got.items() if v != 0.0} != want:
+            bad += 1
+            chk.violation("a tensor built without explicit dimensions does not read back the supplied entries", case, expected=sorted(want.items()), got=sorted(got.items()))
+    # from_lol: dimensions from the list lengths
+    for dims in [(2, 3), (1, 4), (3, 1, 2), (2, 2, 2), (4,), ()]:
+        def mk(prefix, rest):
+            if not rest:
+                return float(sum((i + 1) * (7 ** j) for j, i in enumerate(prefix)) % 5)
+            return [mk(prefix + [i], rest[1:]) for i in range(rest[0])]
+        lol = mk([], list(dims))
+        t = Tensor.from_lol(lol)
+        chk.case(("defaults", "lol", dims))
+        want = {c: mk(list(c), []) for c in it.product(*[range(d) for d in dims])}
+        got = dict(kernels_raw_decode(t))
+        if tuple(t.dimensions) != tuple(dims) or {c: v for c, v in got.items() if v != 0.0} != {c: v for c, v in want.items() if v != 0.0}:
+            bad += 1
+            chk.violation("from_lol without dimensions does not reproduce the nested lists", {"entry": "lol(no dimensions)", "dims": list(dims)}, expected=sorted(want.items()), got=[list(t.dimensions), sorted(got.items())])
+    chk.corr("constructors-without-dimensions(oracle)", n + 6, bad)
+
+
+def kernels_raw_decode(t):
+    from .. import kernels
+
+    return kernels.Raw.of_tensor(t).decode().items()
+
+
 def run(chk: Check, drv: Driver):
     chk.cov["rule"] = (
         "all formats of order<=3 (order 4 sampled) x dims in {0,1,2(,3)}^n x coordinate subsets (all when small) x "
@@ -310,6 +380,7 @@ def run(chk: Check, drv: Driver):
             chk.violation("stored structure is not canonical (wfCheck false)", case, got=sx(st))
     malformed(chk, drv)
     to_format_checks(chk)
+    defaults_checks(chk)
     chk.cov["exhaustive"] = chk.tier == "thorough"
     chk.assumptions += [
         "values are small integers (exact in binary64); float rounding of duplicate sums is outside the model",
